@@ -58,7 +58,16 @@ pub fn check(ls: &LangSet, s: &str, filler: &str) -> Verdict {
     }
     let s2: String = subst.concat();
     for &t in THRESHOLDS.iter() {
-        let (_t1, o1) = api.scan_text(s, t);
+        let (t1, o1) = api.scan_text(s, t);
+        // the property is observed at replace_numbers_in_text: it must be the splice of exactly these occurrences
+        let r = api.replace(s, t);
+        match super::splice(&t1, &o1) {
+            Ok(e) if e == r => {}
+            other => {
+                v.failure = Some(format!("threshold {}: replace_numbers_in_text({:?}) = {:?} but the occurrences found on its annotated tokens ({}) splice to {:?}", t, s, r, crate::api::show_occs(&o1), other));
+                return v;
+            }
+        }
         let (_t2, o2) = api.scan_text(&s2, t);
         if o1 != o2 {
             v.failure = Some(format!(
